@@ -1,9 +1,119 @@
-(* C02 — property theorems only. *)
+(* C02 — property theorems only.  Each is closed by `exact` of a lemma of C02_Proofs.v / C02_ProofsScan.v. *)
 From Coq Require Import List NArith Bool String.
-From Dae Require Import C01_Spec C01_Model C02_Spec C02_Model C02_Proofs.
+From Dae Require Import C01_Spec C01_Model C02_Spec C02_Model C02_Proofs C02_ProofsScan.
+From Dae.gen Require Import C01_Consts C02_Consts.
 Import ListNotations.
 Open Scope N_scope.
 
-Theorem C02_le32_roundtrip : forall x r, x < 4294967296 -> le32 (le32_bytes x ++ r) 0 = x.
-Proof. exact le32_bytes_le32. Qed.
-Print Assumptions C02_le32_roundtrip.
+(* REFINEMENT (the property).  For every array of match-sets the builder can emit (any length up to the limit, any of the
+   eleven types, any NOT/OR/AND/must_rules shape, marks below 2^32, outbound ids one byte) with its LPM sets, every ring
+   offset `alloc` and every earlier content `prev` of the kernel maps (any number of earlier reloads), and every packet
+   (TCP/UDP, IPv4/IPv6, with or without MAC and process name, any ports including 53, LAN or WAN): if
+   buildRoutingKernspace installs the generation, then route() over the installed BYTES — decoded as its callers decode
+   the result word — answers dns_adjust of what RoutingMatcher.Match answers for the same packet, and nothing when Match
+   answers nothing.  Hypotheses: the domain_routing_map entry of the destination is the bitmap of the packet's domain
+   (C10/C11 interface, `dom_entry`), and the process-name hypothesis `pname_guard_ok`.
+   C02_kscan_scan_full is the statement without the process-name hypothesis; it is FALSE (C02_kscan_scan_refuted). *)
+Definition C02_kscan_scan_full : Prop := kscan_scan_statement false.
+
+Theorem C02_kscan_scan_refuted : ~ C02_kscan_scan_full.
+Proof. exact kscan_scan_refuted_proof. Qed.
+Print Assumptions C02_kscan_scan_refuted.
+
+Theorem C02_kscan_scan_partial :
+  forall (prev : kmaps) (ms : list mset) (tries : list (list prefix128)) (alloc : N) (dm : string -> list N)
+         (pk : packet) (wan : bool) (km : kmaps),
+    forallb (wf_mset (N.of_nat (List.length tries))) ms = true ->
+    forallb (forallb wf_prefix) tries = true ->
+    wf_packet pk = true ->
+    bitmap_ok (dm (p_domain pk)) = true ->
+    pname_guard_ok ms pk wan = true ->
+    install prev ms tries alloc = Ok km ->
+    let bm := if String.eqb (p_domain pk) "" then None else Some (dm (p_domain pk)) in
+    kernel_decides prev ms tries alloc (dom_entry bm) pk wan
+    = Ok (expected (p_dport pk) (user_answer (match_sets {| mt_sets := ms; mt_tries := tries |} dm (args_of_packet pk)))).
+Proof. exact kscan_scan_partial_proof. Qed.
+Print Assumptions C02_kscan_scan_partial.
+
+(* the witness of the refutation, spelled out: `pname('') -> block; fallback: direct` and a WAN packet whose process is
+   unknown: the kernel says block, the control plane says direct *)
+Theorem C02_empty_pname_witness :
+  kernel_decides empty_kmaps f11_msets [] 0 None f11_packet true = Ok (Some (1, 0, false)) /\
+  match_sets {| mt_sets := f11_msets; mt_tries := [] |} (fun _ => []) (args_of_packet f11_packet) = Ok (0, 0, false) /\
+  pname_guard_ok f11_msets f11_packet true = false.
+Proof. exact f11_answers. Qed.
+Print Assumptions C02_empty_pname_witness.
+
+(* TOTALITY of the installation for what the builder emits within the limits *)
+Theorem C02_install_total :
+  forall (prev : kmaps) (ms : list mset) (tries : list (list prefix128)) (alloc : N),
+    forallb (wf_mset (N.of_nat (List.length tries))) ms = true ->
+    (List.length tries <= 1024)%nat -> (List.length ms <= 1024)%nat ->
+    last (map m_type ms) 255 = MatchType_Fallback ->
+    exists km, install prev ms tries alloc = Ok km.
+Proof. exact install_total. Qed.
+Print Assumptions C02_install_total.
+
+(* ROUND TRIP of the encodings: for every match-set and ring offset, the kernel's accessors applied to the bytes the
+   control plane writes (Go encoding + ring rewrite) yield the field values: type, not, outbound, must, mark; LPM slot;
+   port_start/port_end; protocol/version masks; the process name as two 64-bit words; dscp. *)
+Theorem C02_encode_decode :
+  forall (alloc n : N) (m : mset), wf_mset n m = true -> decodes alloc (kentry alloc m) m.
+Proof. exact encode_decode. Qed.
+Print Assumptions C02_encode_decode.
+
+Theorem C02_rewrite_is_kentry :
+  forall (alloc count n : N) (ms : list mset), forallb (wf_mset n) ms = true -> n <= count -> count <= 1024 ->
+    rewrite_rules alloc count (map enc_mset ms) = Ok (map (kentry alloc) ms).
+Proof. exact rewrite_rules_kentry. Qed.
+Print Assumptions C02_rewrite_is_kentry.
+
+(* the result word is lossless for marks < 2^32 and outbounds <= 255 *)
+Theorem C02_result_word_lossless :
+  forall (o mark : N) (must : bool), o < 256 -> mark < 4294967296 ->
+    decode_word (KWord (pack o mark must)) = Some (o, mark, must).
+Proof. exact decode_pack. Qed.
+Print Assumptions C02_result_word_lossless.
+
+(* LPM keys: the kernel trie filled with cidrToBpfLpmKey of a prefix set answers CIDR containment for a /128 lookup *)
+Theorem C02_lpm_keys :
+  forall (x : N) (t : list prefix128), forallb wf_prefix t = true -> x < 2 ^ 128 ->
+    lpm_lookup (map key_of_prefix t) 128 (bytes_be 16 x) = existsb (px_covers x) t.
+Proof. exact lpm_lookup_keys. Qed.
+Print Assumptions C02_lpm_keys.
+
+(* RING: the slots of one generation are pairwise distinct, and after buildRoutingKernspace every trie sits in the slot
+   its rewritten rule index names — for every ring offset and whatever earlier reloads left in the map *)
+Theorem C02_ring_injective :
+  forall (alloc : N) (count : nat), (count <= 1024)%nat ->
+    NoDup (map (fun i => ring_slot MaxMatchSetLen alloc (N.of_nat i)) (seq 0 count)).
+Proof. exact ring_nodup. Qed.
+Print Assumptions C02_ring_injective.
+
+Theorem C02_ring_own_slot :
+  forall (tries : list (list prefix128)) (prev : N -> option (list (list N))) (alloc : N) (k : nat) (t : list prefix128),
+    N.of_nat (List.length tries) <= MaxMatchSetLen -> nth_error tries k = Some t ->
+    install_tries prev alloc 0 tries (ring_slot MaxMatchSetLen alloc (0 + N.of_nat k)) = Some (map key_of_prefix t).
+Proof. intros tries prev alloc k t. exact (install_tries_get tries prev alloc 0 k t). Qed.
+Print Assumptions C02_ring_own_slot.
+
+(* SYNC: struct layout, limits and enum values reported by the C compiler, by the Go compiler/consts package and those
+   hard-coded in the model coincide (exhaustive over the extracted tables: a proof about the current declarations) *)
+Theorem C02_enum_sync :
+  table_eqb C_TABLE GO_TABLE = true /\ table_eqb C_TABLE MODEL_TABLE = true /\ table_eqb C_UNION_TABLE MODEL_UNION_TABLE = true /\
+  MaxMatchSetLen <= K_MAX_LPM_NUM /\ CONTROL_PLANE_ROUTING = OutboundControlPlaneRouting.
+Proof. exact enum_sync_proof. Qed.
+Print Assumptions C02_enum_sync.
+
+Example C02_nonvacuous :
+  forallb (wf_mset 3) ex_msets = true /\ forallb (forallb wf_prefix) ex_tries = true /\
+  (exists km, install empty_kmaps ex_msets ex_tries 1022 = Ok km /\
+              map (fun k => ms_index (nth k (km_routing km) [])) [1; 2; 4]%nat = [1022; 1023; 0]) /\
+  kernel_decides empty_kmaps ex_msets ex_tries 1022 None (ex_pk 0xffff0a010203 443 0 "") false = Ok (Some (2, 7, false)) /\
+  kernel_decides empty_kmaps ex_msets ex_tries 1022 None (ex_pk 0xffff0a010203 53 0 "") false = Ok (Some (2, 7, true)) /\
+  kernel_decides empty_kmaps ex_msets ex_tries 1022 None (ex_pk 0xffff08080808 443 0x0242ac110002 "") false = Ok (Some (3, 0xffffffff, true)) /\
+  kernel_decides empty_kmaps ex_msets ex_tries 1022 (dom_entry (Some (ex_dm ""))) (ex_pk 0xffff08080808 443 0 "x.org") false = Ok (Some (4, 0, false)) /\
+  kernel_decides empty_kmaps ex_msets ex_tries 1022 None (ex_pk 0xffff08080808 443 0 "") false = Ok (Some (0, 0, false)) /\
+  kernel_decides empty_kmaps ex_msets ex_tries 1022 None (ex_pk 0xffff08080808 53 0 "") false = Ok (Some (0, 0, true)) /\
+  expected 53 (Some (0, 0, false)) = Some (CONTROL_PLANE_ROUTING, 0, false).
+Proof. exact nonvacuous_proof. Qed.
